@@ -8,17 +8,17 @@ import (
 )
 
 func (pdb *pgDb) Dump(ctx context.Context, key []byte) (*db.Dumper, error) {
-	tx, err := pdb.conn.BeginTx(ctx, defaultTxOptions)
-	if err != nil {
-		return nil, err
-	}
-
 	pdb.SetLanguage(nil)
 	lk, err := pdb.ToKey(ctx, key)
 	if err != nil {
 		return nil, err
 	}
 	k := lk.Default
+
+	tx, err := pdb.conn.BeginTx(ctx, defaultTxOptions)
+	if err != nil {
+		return nil, err
+	}
 
 	query := fmt.Sprintf("SELECT key, value FROM %s.kv_vise WHERE key >= $1", pdb.schema)
 	rs, err := tx.Query(ctx, query, k)
